@@ -54,7 +54,7 @@ RULE = ('valid (signature, value) pairs and valid messages are generated from th
 RECURSION_ROOM = 1000
 GREY = 80
 ALARM_S = 60.0
-MEMORY_ROOM = 2 << 30       # address space a single decode may add (bytes) before MemoryError
+MEMORY_ROOM = 768 << 20      # address space a single decode may add (bytes) before MemoryError
 
 
 def vm_size():
@@ -143,6 +143,7 @@ def nodes(v):
 
 def guarded(counter, budget, fn):
     """Run fn() instrumented.  Returns dict(status, steps, value) ; status: ok | err:<Class> | BUDGET | ALARM | MEMORY."""
+    global ALARM_S
     counter.n = 0
     counter.budget = budget
     old_limit = sys.getrecursionlimit()
@@ -162,6 +163,7 @@ def guarded(counter, budget, fn):
             v, st = None, 'BUDGET'
         except Alarm:
             v, st = None, 'ALARM'
+            ALARM_S = max(ALARM_S / 2, 4.0)     # a tree that hangs is not waited for again and again
         except MemoryError:
             v, st = None, 'MEMORY'
         except Exception as e:      # RecursionError is an Exception
@@ -706,7 +708,7 @@ class Runner:
             ctx.disagree(stream, cj, mline, {k: v for k, v in obs.items()}, detail=','.join(bad))
 
     def key(self, c, base):
-        if base not in ('decode-work-not-linear', 'decode-does-not-terminate'):
+        if base not in ('decode-work-not-linear', 'decode-does-not-terminate', 'decode-memory'):
             return base
         sig = c['sig'] if c['op'] == 'u' else self.signature_field(c['data'])
         if c['op'] == 'p' and (not isinstance(sig, str) or len(sig) > 255):
@@ -839,6 +841,17 @@ def run(ctx):
         R.add('hostile-signatures', {'op': 'u', 'sig': '(' * depth + 'y' + ')' * depth, 'le': True, 'off': 0, 'data': b'\x05'})
         R.add('hostile-signatures', {'op': 'u', 'sig': 'a' * depth + 'y', 'le': True, 'off': 0,
                                      'data': (struct.pack('<I', 4) * depth)[:4 * min(depth, 64)]})
+    R.flush()
+
+    # near the worst case of the linear bound: 255-character element signatures, hundreds of elements
+    for sig, elem, n in (('a(y' + '()' * 125 + ')', b'\x01' + b'\0' * 7, 500), ('a(yv)', b'\x05\x01y\0\x09\0\0\0', 400),
+                         ('aay', struct.pack('<I', 3) + b'abc\0', 300), ('a(' + '(' * 120 + 'y' + ')' * 120 + ')', b'\x01' + b'\0' * 7, 200),
+                         ('av', b'\x03a()\0' + struct.pack('<I', 0), 256), ('a{yv}', b'\x07\x02ay\0\0\0\0' + struct.pack('<I', 4) + b'wxyz', 250)):
+        body = struct.pack('<I', len(elem) * n) + b'\0' * 4 + elem * n
+        R.add('hostile-signatures', {'op': 'u', 'sig': sig, 'le': True, 'off': 0, 'data': body})
+        R.add('hostile-signatures', {'op': 'u', 'sig': sig, 'le': True, 'off': 0, 'data': body[:len(body) - 3]})
+        if len(sig) <= 255:
+            R.add('hostile-message-signature', {'op': 'p', 'data': raw_message([f_path, f_member, f_sig_g(sig)], body)})
     R.flush()
 
     # ---- hostile signatures as body signature of a message
